@@ -80,6 +80,21 @@ def run(ctx):
                 rebound = any(isinstance(x, ast.Name) and x.id == n.args[1].id and isinstance(x.ctx, ast.Store) for x in walk_no_nested(fi.node))
                 if not rebound:
                     adopters[fi.name] = fi.params().index(n.args[1].id)
+    # ... and a function that hands its own parameter on to an adopter adopts it too (the adoption extracted into a worker)
+    changed = True
+    while changed:
+        changed = False
+        for fi in ctx.repo.all_funcs():
+            if isinstance(fi.node, ast.Lambda) or fi.name in adopters:
+                continue
+            for n in walk_no_nested(fi.node):
+                if isinstance(n, ast.Call) and isinstance(n.func, ast.Name) and n.func.id in adopters:
+                    i = adopters[n.func.id]
+                    arg = n.args[i] if i < len(n.args) and not any(isinstance(a, ast.Starred) for a in n.args[:i + 1]) else None
+                    if isinstance(arg, ast.Name) and arg.id in fi.params() and \
+                            not any(isinstance(x, ast.Name) and x.id == arg.id and isinstance(x.ctx, ast.Store) for x in walk_no_nested(fi.node)):
+                        adopters[fi.name] = fi.params().index(arg.id)
+                        changed = True
     ctx.extra['line_list_adopting_functions'] = adopters
     for fi in ctx.repo.all_funcs():
         if isinstance(fi.node, ast.Lambda):
@@ -112,9 +127,10 @@ def run(ctx):
                     ('_unmake_fst_tree', '_fields')):
         for fi in ctx.repo.funcs('fst_core', q):
             want = set(must.split('|'))
-            from ..struct import with_helpers
+            from ..struct import with_helpers, called_helpers
             uses = any((isinstance(x, ast.Call) and call_name(x) in want) or (isinstance(x, ast.Attribute) and x.attr in want) or
-                       (isinstance(x, ast.Name) and x.id in want) for g in with_helpers(ctx.repo, fi) for x in ast.walk(g.node))
+                       (isinstance(x, ast.Name) and x.id in want) for g in with_helpers(ctx.repo, fi) + called_helpers(ctx.repo, fi, 2)
+                       for x in ast.walk(g.node))
             ctx.check('R1.4', uses, 'fst_core', fi.qualname, f'{q} enumerates children via {must}',
                       f'{q} must reach all children through the grammar-driven enumeration', fi.lineno)
     check_primitive_puts(ctx)
@@ -152,6 +168,8 @@ def check_bistr(ctx, fi, adopters=None):
                 installed.add(n.args[1].id)
         elif isinstance(n, ast.Call) and call_name(n) in (adopters or {}) and isinstance(n.func, ast.Name):
             i = adopters[call_name(n)]
+            if i < len(n.args) and isinstance(n.args[i], ast.Name) and n.args[i].id in fi.params() and adopters.get(fi.name) == fi.params().index(n.args[i].id):
+                continue          # hands its own adopted parameter on: checked at the call sites of this function
             if i < len(n.args) and not any(isinstance(a, ast.Starred) for a in n.args[:i + 1]):
                 # normalise to the same shape: (callee, <ignored>, lines argument)
                 fake = ast.Call(func=n.func, args=[n.args[0], n.args[i]], keywords=[])
